@@ -87,7 +87,10 @@ class CheckEnsureArgs(FuncRule):
             yield from self._check(contract)
 
     def _check(self, contract: Contract) -> Iterator[Error]:
-        validator = contract.args[0]
+        try:
+            validator = contract.raw_validator
+        except NoValidatorError:
+            return
         if not uses_result(validator):
             yield Error(
                 code=self.code,
@@ -159,7 +162,10 @@ class CheckExamples(FuncRule):
             yield from self._check(func=func, contract=contract)
 
     def _check(self, func: Func, contract: Contract) -> Iterator[Error]:
-        token = contract.raw_validator
+        try:
+            token = contract.raw_validator
+        except NoValidatorError:
+            return
         if not isinstance(token, TOKENS.LAMBDA):
             return
         example = get_example(token.body, func_name=func.name)
